@@ -17,8 +17,8 @@ type Opts struct {
 	Unroll        map[string]int // "funcRelString" or "funcRelString#hdrIndex" -> bound
 	MaxDepth      int
 	MaxCandidates int
-	MaxMake       int // upper bound assumed for symbolic make/append lengths (bytes)
-	PruneTimeout  int // ms for feasibility calls (0 = no pruning)
+	MaxMake       int               // upper bound assumed for symbolic make/append lengths (bytes)
+	PruneTimeout  int               // ms for feasibility calls (0 = no pruning)
 	Stubs         map[string]string // callee full name -> harness function name
 	Ignore        map[string]bool   // callees with empty bodies
 	Trace         bool
@@ -49,10 +49,10 @@ type UnwindFlag struct {
 }
 
 type Input struct {
-	Name string
-	T    smt.Term
-	W    int
-	Kind string
+	Name                 string
+	T                    smt.Term
+	W                    int
+	Kind                 string
 	UnderSymbolicControl bool
 }
 
@@ -66,11 +66,11 @@ type ShapeRequest struct {
 }
 
 type Engine struct {
-	C     *smt.Ctx
-	Prog  *ssa.Program
-	Pkg   *ssa.Package
-	Opts  Opts
-	Fset  *token.FileSet
+	C      *smt.Ctx
+	Prog   *ssa.Program
+	Pkg    *ssa.Package
+	Opts   Opts
+	Fset   *token.FileSet
 	Solver *smt.Solver // optional, for pruning
 
 	nextObj   int
@@ -81,44 +81,45 @@ type Engine struct {
 	globals map[*ssa.Global]*Obj
 	fninfo  map[*ssa.Function]*fnInfo
 
-	Obls    []*Obligation
-	Covers  []*CoverPt
-	Unwinds []*UnwindFlag
-	Inputs  []*Input
-	Assumes int
-	Encoded map[*ssa.Function]int
+	Obls      []*Obligation
+	Covers    []*CoverPt
+	Unwinds   []*UnwindFlag
+	Inputs    []*Input
+	Assumes   int
+	Encoded   map[*ssa.Function]int
 	StubsUsed map[string]int
 	AlignHint map[*Obj]int
-	Notes   []string
+	Notes     []string
 
 	Shape    map[string]int
 	ShapeLog []string
 
 	// concurrency
-	Threads  []*Thread
-	Regions  []*SharedRegion
-	Ghost    map[string]*Obj
-	mainSt   *State
-	initDone bool
+	Threads   []*Thread
+	Regions   []*SharedRegion
+	Ghost     map[string]*Obj
+	mainSt    *State
+	initDone  bool
 	InitState *State
 
-	stack []string
+	stack      []string
 	PruneCalls int
 	PruneHits  int
 
-	globalInit []*Obj
-	inInit     bool
-	globalVals map[*Obj]interface{}
-	strObjs    map[string]*Obj
-	Hints      []smt.Term
-	errT       types.Type
-	clockObj   *Obj
-	shapeSeq   map[string]int
-	writers    map[*Obj]map[int]bool
-	Sched      []smt.Term // schedule / memory-consistency constraints of the composition
-	Finished   smt.Term
-	Rounds     int
-	Stats      ComposeStats
+	globalInit  []*Obj
+	inInit      bool
+	globalVals  map[*Obj]interface{}
+	strObjs     map[string]*Obj
+	Hints       []smt.Term
+	divCache    map[string][2]smt.Term
+	errT        types.Type
+	clockObj    *Obj
+	shapeSeq    map[string]int
+	writers     map[*Obj]map[int]bool
+	Sched       []smt.Term // schedule / memory-consistency constraints of the composition
+	Finished    smt.Term
+	Rounds      int
+	Stats       ComposeStats
 	ThreadsDone []*Thread
 }
 
